@@ -766,14 +766,13 @@ class Parser:
                 **locs,
                 **cmd.loc_end(),
             )
-        return ast.BinOp(
-            left=tree,
-            op=ast.Add(),
-            right=ast.Constant(value=cmd.string, **cmd.loc()) if isinstance(cmd, TokenInfo) else cmd,
-            **locs,
-            end_lineno=cmd.end_lineno if isinstance(cmd, ast.AST) else cmd.end[0],
-            end_col_offset=cmd.end_col_offset if isinstance(cmd, ast.AST) else cmd.end[1],
-        )
+        right = ast.Constant(value=cmd.string, **cmd.loc()) if isinstance(cmd, TokenInfo) else cmd
+        end = {"end_lineno": right.end_lineno, "end_col_offset": right.end_col_offset}
+        if isinstance(tree, ast.Starred | ast.Tuple) or isinstance(right, ast.Starred):
+            # a starred piece cannot be an operand of +: glue with a tuple, like prefix@(...)suffix
+            elts = [*tree.elts, right] if isinstance(tree, ast.Tuple) else [tree, right]
+            return ast.Tuple(elts=elts, ctx=Load, **locs, **end)
+        return ast.BinOp(left=tree, op=ast.Add(), right=right, **locs, **end)
 
     def _proc_args(self, args: list[TokenInfo | ast.expr]) -> Iterator[ast.AST]:
         """split into chunks if they are not contiguous."""
